@@ -258,8 +258,12 @@ func groupLaw(t *rapid.T, ad *adapter) {
 	P, Q := ad.mk(a), ad.mk(b)
 	desc := fmt.Sprintf("P=%s·G Q=%s·G (%s) k=%s", a.Text(16), b.Text(16), rel, k.Text(16))
 	if got, want := ad.enc(P), ad.want(a); got != want {
-		// the harness could not even hand the point over
-		t.Fatalf("SELFTEST-FAIL %s: constructed point differs from the reference: %s vs %s", ad.name, got, want)
+		// the point could not even be handed over. No adapter's mk uses library arithmetic: mk copies or decodes
+		// the reference coordinates / encoding of a·G and enc reads them back (p384, fourq: plain copies, so the
+		// harness itself is wrong; group.*, bls12381.*: UnmarshalBinary / SetBytes then MarshalBinary / Bytes;
+		// goldilocks: FromAffine then ToAffine). A difference is a decoder / encoder defect of circl outside
+		// C13 (it belongs to C09); the group-law check cannot proceed.
+		t.Fatalf("SELFTEST-FAIL %s: circl misbehaved outside C13: decoding the reference's %s·G (adapter mk) and rendering it again (adapter enc) gives %s, the reference has %s", ad.name, a.Text(16), got, want)
 	}
 	if ad.projective && ad.add != nil && rapid.IntRange(0, 2).Draw(t, "unnormalised") > 0 {
 		// operands in the internal form left by other operations (z != 1)
@@ -881,7 +885,9 @@ func specialCase(t *rapid.T, ad *adapter, sp []curves.WPoint) {
 	desc := fmt.Sprintf("S=(%s) T=(%s) (%s) k=%s", wStr(S), wStr(T), rel, k.Text(16))
 	pS, pT := ad.mkW(S), ad.mkW(T)
 	if got, want := ad.enc(pS), ad.encW(S); got != want {
-		t.Fatalf("SELFTEST-FAIL %s: special point not handed over: %s vs %s", ad.name, got, want)
+		// mkW copies (p384) or decodes (group.*: UnmarshalBinary, bls12381.G1: SetBytes) reference coordinates, no
+		// library arithmetic is involved: a decoder / encoder defect of circl outside C13, the check cannot proceed
+		t.Fatalf("SELFTEST-FAIL %s: circl misbehaved outside C13: decoding the reference point S=(%s) (adapter mkW) and rendering it again (adapter enc) gives %s, the reference has %s", ad.name, wStr(S), got, want)
 	}
 	if ad.add != nil {
 		want := ad.encW(c.Add(S, T))
